@@ -15,8 +15,12 @@ def run(s):
     m = re.search(r"rc=(\d+) :: (.*)", line)
     rc, msg = (int(m.group(1)), m.group(2).strip()) if m else (-1, line)
     return s, prop, rc, msg
+only = os.environ.get("ONLY")  # regex: run only these seeds, take the others' outcome from their meta.json
+def stored(s):
+    d = json.load(open(os.path.join(ROOT, "seeded", s, "meta.json"))).get("detection") or {}
+    return s, s.split("-")[0], d.get("exit_code", -1), d.get("first_line", "(not run yet)")
 with ThreadPoolExecutor(max_workers=int(os.environ.get("PAR", "4"))) as ex:
-    results = list(ex.map(run, seeds))
+    results = list(ex.map(lambda s: run(s) if not only or re.search(only, s) else stored(s), seeds))
 rows = []
 for s, prop, rc, msg in results:
     mp = os.path.join(ROOT, "seeded", s, "meta.json")
